@@ -130,10 +130,22 @@ def _install_od(node, index, sub, kind, ntype):
     if sub == 0:
         v = world.var(name, index, 0, dt)
         od.add_object(v)
+    elif sub >= 2 and (index + sub) % 3 == 0:
+        # an array whose dictionary lists the first member only: ODArray derives the addressed
+        # member (data type, and with it the declared size) from that one
+        v = world.var("m1", index, 1, dt)
+        od.add_object(world.array(name, index, [world.var("n", index, 0, odm.UNSIGNED8), v]))
     else:
         v = world.var("m%d" % sub, index, sub, dt)
         od.add_object(world.record(name, index, [world.var("n", index, 0, odm.UNSIGNED8), v]))
     return v
+
+
+def _member_name(node, index, sub):
+    obj = node.object_dictionary[index]
+    if isinstance(obj, odm.ODArray) and sub not in obj.subindices:
+        return None                 # a member ODArray derives from the first one can be addressed by number only
+    return "m%d" % sub
 
 
 def _chunks(ctx, total, small):
@@ -283,7 +295,7 @@ def _download(ctx, ch, node, srv, index, sub, length, api, variant, okind, ntype
             if sub == 0:
                 var = node.sdo[name] if byname else node.sdo[index]
             else:
-                var = node.sdo[name + ".m%d" % sub] if byname else node.sdo[index][sub]
+                var = node.sdo[name + "." + _member_name(node, index, sub)] if byname and _member_name(node, index, sub) else node.sdo[index][sub]
             if ctx.choice(2, "rawdata"):
                 var.raw = data
             else:
@@ -417,7 +429,7 @@ def _upload(ctx, ch, node, srv, index, sub, length, api, style, okind, ntype, sa
                 if sub == 0:
                     var = node.sdo[name] if byname else node.sdo[index]
                 else:
-                    var = node.sdo[name + ".m%d" % sub] if byname else node.sdo[index][sub]
+                    var = node.sdo[name + "." + _member_name(node, index, sub)] if byname and _member_name(node, index, sub) else node.sdo[index][sub]
                 if okind in ("domain", "octet") and ctx.choice(2, "rawdata"):
                     return var.raw
                 return var.data
